@@ -412,8 +412,18 @@ func c04RunPairs(tier string, cfg c04Cfg) fw.Result {
 	sql := c04SQL(c04Set{Name: name, Cols: cfg.Pairs}, cfg.Kind)
 	seq := []int{0, 1, 0, 1}
 	idx := 0
+	// two columns: plus the text tuples that collide under any "join the components with a middle" encoding
+	nUni := len(uni)
+	if cfg.Pairs == 2 {
+		for _, pr := range middlePairs() {
+			uni = append(uni, c04Tuple{pr[0][0], pr[0][1]}, c04Tuple{pr[1][0], pr[1][1]})
+		}
+	}
 	for i := 0; i < len(uni); i++ {
 		for j := i + 1; j < len(uni); j++ {
+			if j >= nUni && !(i == j-1 && (j-nUni)%2 == 1) {
+				continue // a middle tuple is only compared with its own partner
+			}
 			idx++
 			if idx%c04PairParts != cfg.Part {
 				continue
